@@ -1025,6 +1025,60 @@ GENERATORS = [("DdsSrc.lean", generate_dds), ("DasSrc.lean", generate_das), ("Hl
               ("AppSrc.lean", generate_app), ("CeSrc.lean", generate_ce)]
 
 
+def attr_targets_as_names(body):
+    """`x.attr = e` is read as the assignment of the variable named `x.attr` (purely syntactic; MiniPy has values, no
+    object graph: what the theorem then says is *which value the block stores under that name*)"""
+    class T(ast.NodeTransformer):
+        def visit_Assign(self, node):
+            self.generic_visit(node)
+            if len(node.targets) == 1 and isinstance(node.targets[0], ast.Attribute) \
+                    and isinstance(node.targets[0].value, ast.Name):
+                t = node.targets[0]
+                return ast.copy_location(ast.Assign(targets=[ast.Name(id="%s.%s" % (t.value.id, t.attr), ctx=ast.Store())],
+                                                    value=node.value), node)
+            return node
+
+    holder = ast.Module(body=list(body), type_ignores=[])
+    T().visit(holder)
+    return holder.body
+
+
+def generate_model(repo):
+    """model.py `BaseType.__getitem__`, `BaseType._get_data_index` (C14's `Proxy.varGetitem` / `readData`): the only
+    thing done with the data an object holds is to READ `data[index]`; the result is stored on the NEW object.
+    (The loop of `GridType.__getitem__` is not tied by translation: mutants/C14/harmless_grid_loop.diff, a rewrite of
+    that loop that must stay quiet, leaves the fragment; the loop is covered by the traced correspondence.)"""
+    model = parse_src(repo, "model.py")
+    DAP4_ATTRS = ("if type(self.data).__name__ == 'BaseProxyDap4':\n    out.attributes['checksum'] = self.data.checksum\n"
+                  "    out.attributes['Maps'] = self.Maps")
+
+    def getitem():
+        fn = find_method(model, "BaseType", "__getitem__")
+        body = attr_targets_as_names(drop_statements(body_of(fn), [DAP4_ATTRS]))
+        with abstracting({"copy.copy(self)": "@copy", "self._get_data_index(index)": "@indexed"}):
+            return stmts(body, None, tail=True)
+
+    def get_data_index():
+        fn = find_method(model, "BaseType", "_get_data_index")
+        with abstracting({"self._is_string_dtype": "@is_string", "isinstance(self._data, np.ndarray)": "@is_ndarray",
+                          "np.vectorize(decode_np_strings)(self._data[index])": "@decoded", "self._data[index]": "@plain"}):
+            return stmts(body_of(fn), None, tail=True)
+
+    parts = [HEADER,
+             block("src_basetype_getitem", "model.py BaseType.__getitem__: the whole body but the statement that copies the "
+                   "DAP4 attributes `checksum` / `Maps` (set aside, named in the generator); inputs: `@copy` for "
+                   "`copy.copy(self)`, `@indexed` for `self._get_data_index(index)`; `out.data = e` is the assignment of the "
+                   "variable `out.data`; `return e` is `@ret = e`", getitem),
+             block("src_get_data_index", "model.py BaseType._get_data_index: the whole body; inputs: `@is_string` for "
+                   "`self._is_string_dtype`, `@is_ndarray` for `isinstance(self._data, np.ndarray)`, `@plain` for "
+                   "`self._data[index]`, `@decoded` for `np.vectorize(decode_np_strings)(self._data[index])`", get_data_index),
+             "end Pydap.Gen\n"]
+    return "\n".join(parts)
+
+
+GENERATORS.append(("ModelSrc.lean", generate_model))
+
+
 def write(repo, verif):
     changed = False
     for fname, gen in GENERATORS:
